@@ -88,6 +88,7 @@ fn exec(ops: &[Op], heap_only: bool) -> Option<(String, String)> {
         let mut v: Vec<u64> = Vec::new();
         let mut keys: Vec<u64> = Vec::new();
         let mut dir: Option<bool> = None;
+        let mut steps_left = ops.len();
         for o in ops {
             match o {
                 Op::Ins(p, x) => {
@@ -181,7 +182,16 @@ fn exec(ops: &[Op], heap_only: bool) -> Option<(String, String)> {
                 None => return Some(("node priorities are not heap-ordered in one direction".into(), "heap order on every parent-child edge".into())),
                 Some(_) => {}
             }
-            if !heap_only {
+            // observing the sequence pushes every pending modification down, so it is done only after the LAST operation:
+            // modifications must be able to stay pending across operations (that is what the property is about)
+            steps_left -= 1;
+            if !heap_only && t.size() != v.len() {
+                return Some((format!("size() = {}", t.size()), format!("{}", v.len())));
+            }
+            if !heap_only && t.root().map(|i| i.sm).unwrap_or(0) != v.iter().sum::<u64>() % P {
+                return Some((format!("root aggregate {}", t.root().map(|i| i.sm).unwrap_or(0)), format!("{}", v.iter().sum::<u64>() % P)));
+            }
+            if !heap_only && steps_left == 0 {
                 let got: Vec<u64> = t.collect().iter().map(|i| i.x).collect();
                 if got != v {
                     return Some((format!("collect() = {:?}", got), format!("{:?}", v)));
@@ -245,8 +255,25 @@ pub fn run(seed: u64, replay: Option<String>, heap_only: bool) -> Outcome {
     }
     let mut rng = Lcg(seed ^ 0xc03);
     let mut cases = 0;
+    // deterministic family: build n elements, attach a modification to the root of the whole treap (it stays pending there),
+    // then split by every prefix / take first, last, remove, insert while it is pending
+    for n in 1..=7usize {
+        for k in 0..=n {
+            for tail in 0..4 {
+                let mut ops: Vec<Op> = (0..n).map(|i| Op::Ins(if i % 2 == 0 { i } else { 0 }, 10 + i as u64)).collect();
+                ops.push(Op::Mod(0, n - 1, 3, 5));
+                ops.push(match tail { 0 => Op::SplitBy(k), 1 => Op::Sum(k.min(n - 1), n - 1), 2 => Op::Rem(k), _ => Op::Ins(k, 77) });
+                ops.push(Op::Mod(0, n - 1, 2, 1));
+                ops.push(Op::SplitBy(n - k));
+                cases += 1;
+                if let Some(first) = (0..8).find_map(|_| exec(&ops, heap_only)) {
+                    return Outcome { cex: Some(Cex { input: enc(&ops), observed: first.0, expected: first.1 }), cases };
+                }
+            }
+        }
+    }
     for _ in 0..3000 {
-        let len = 2 + rng.below(12) as usize;
+        let len = 2 + rng.below(22) as usize;
         let mut ops = Vec::new();
         for _ in 0..len {
             ops.push(match rng.below(8) {
@@ -254,7 +281,7 @@ pub fn run(seed: u64, replay: Option<String>, heap_only: bool) -> Outcome {
                 3 => Op::Rem(rng.below(8) as usize),
                 4 | 5 => Op::Mod(rng.below(8) as usize, rng.below(8) as usize, 1 + rng.below(5), rng.below(7)),
                 6 => Op::Sum(rng.below(8) as usize, rng.below(8) as usize),
-                _ => if rng.below(2) == 0 { Op::Rot(rng.below(8) as usize) } else { Op::SplitBy(rng.below(8) as usize) },
+                _ => if rng.below(4) == 0 { Op::Rot(rng.below(8) as usize) } else { Op::SplitBy(rng.below(8) as usize) },
             });
         }
         cases += 1;
